@@ -168,6 +168,7 @@ fn run_family(name: &str, inputs: &[String], fam: &mut BTreeMap<String, Json>, a
         let mut o = Out::default();
         for i in r {
             o.n += 1;
+            mc::watch::progress(|| case_line(&inputs[i]));
             match pipeline(&inputs[i]) {
                 Verdict::NotAccepted => {}
                 Verdict::Ok { size } => {
@@ -229,13 +230,14 @@ fn process_level(progs: &[String], ctx: &mut Ctx) -> (u64, u64) {
         for i in r {
             let f = dir.join(format!("p{}.asm", i));
             std::fs::write(&f, &progs[i]).expect("write temp program");
-            let v = std::process::Command::new(&bin).arg("verify").arg(&f).stdout(std::process::Stdio::null()).stderr(std::process::Stdio::null()).status();
-            let accepted = matches!(&v, Ok(s) if s.code() == Some(0));
+            let v = mc::output_with_timeout(std::process::Command::new(&bin).arg("verify").arg(&f), 20);
+            let accepted = matches!(&v, Ok(Some(o)) if o.status.code() == Some(0));
             let mut died = None;
             if accepted {
-                let r = std::process::Command::new(&bin).arg("run").arg(&f).arg("10").stdout(std::process::Stdio::null()).stderr(std::process::Stdio::piped()).output();
+                let r = mc::output_with_timeout(std::process::Command::new(&bin).arg("run").arg(&f).arg("10"), 20);
                 match r {
-                    Ok(o) => {
+                    Ok(None) => died = Some((None, "the command did not finish within 20 s and was killed".to_string(), String::new())),
+                    Ok(Some(o)) => {
                         let code = o.status.code();
                         if code == Some(101) || code.is_none() {
                             let err = String::from_utf8_lossy(&o.stderr);
